@@ -10,6 +10,7 @@ mod ops_axis;
 mod ops_broadcast;
 mod ops_elem;
 mod ops_reduce;
+mod ops_bits;
 
 use common::*;
 use std::io::{BufRead, Write};
@@ -19,6 +20,7 @@ fn dispatch(op: &str, ty: &str, args: &[Arg]) -> String {
     if let Some(r) = ops_axis::dispatch(op, ty, args) { return r; }
     if let Some(r) = ops_broadcast::dispatch(op, ty, args) { return r; }
     if let Some(r) = ops_reduce::dispatch(op, ty, args) { return r; }
+    if let Some(r) = ops_bits::dispatch(op, ty, args) { return r; }
     if let Some(r) = ops_elem::dispatch(op, ty, args) { return r; }
     "bad".to_string()
 }
